@@ -183,7 +183,8 @@ class Gen(object):
             a = self.tattr("Application Specific Information")
             a["index"] = i
             attrs.append(a)
-        if self.p(0.06):
+        if self.p(self.profile.get("late_fail", 0.06)):
+            # attributes that pass template processing but are refused when set on the object ("fail late")
             attrs.append(self.tattr(self.ch(["State", "Initial Date", "Object Type", "Unique Identifier",
                                              "Certificate Type", "Contact Information", "Fresh", "Lease Time",
                                              "Cryptographic Parameters", "Activation Date"])))
